@@ -229,9 +229,11 @@ CHECKS.update({
             "NaN/inf, overflowing Durations, empty and 10^5-element lists) through StatsdClient over every sink and queuing "
             "wrapper with capacities 0/1/2, every writer history of <= 2 (thorough: 3) operations at capacities 0..3, "
             "SocketStats at u64::MAX, queuing life cycles - every call under catch_unwind on a harness built with overflow "
-            "checks and debug assertions, optimised and debug profile; result kinds compared with the model",
+            "checks and debug assertions, optimised and debug profile; result kinds and the size hint computed by format() (hook "
+            "H3) compared with the model",
             TRUST + "partial: proved = no arithmetic panic / unwrap on None in the modelled cores; validated only = "
-            "lock().unwrap(), std internals, the size hint (not observable through the public API; tied by reading); excluded = "
+            "lock().unwrap(), std internals; the size hint is observed through hook H3 (fmt.size_hint) and compared with the model on "
+            "every call; excluded = "
             "allocation failure, capacities beyond addressable memory, failing thread::spawn, panics of user-supplied sinks/handlers",
             "machine-checked proof (Coq 8.16) on hand-written models + hostile-input correspondence check under catch_unwind (overflow checks on, two profiles)",
             "DESIGN.md 8.C20"),
